@@ -40,9 +40,31 @@ structure Image (A : UtxoAlg) where
   journal : List Chain
   utxo    : A.U
   marker  : Option Chain
+  /-- roll-over limit of the flat block files (0 = a single unbounded file). -/
+  fileMax : Nat
+  /-- block files still on disk, oldest first: bytes used, blocks. -/
+  files   : List (Nat × List Chain)
 
 def Image.empty (A : UtxoAlg) : Image A :=
-  { created := false, stored := [], rows := [], best := [], journal := [], utxo := A.empty, marker := none }
+  { created := false, stored := [], rows := [], best := [], journal := [], utxo := A.empty, marker := none,
+    fileMax := 0, files := [] }
+
+/-- Serialized size of the harness' block at the given height (header, count,
+BIP34 coinbase, 61-byte spends) — what decides the block-file layout. -/
+def blkSize (height : Nat) (b : Blk) : Nat :=
+  80 + 1 + 61 + (if height ≤ 16 then 1 else if height ≤ 127 then 2 else 3) + 3 + 61 * b.spends.length
+
+def recSize : Chain → Nat
+  | [] => 285 + 12
+  | b :: p => blkSize (p.length + 1) b + 12
+
+/-- `blockStore.writeBlock`: append to the last file, roll over when the record does not fit. -/
+def addToFiles (fileMax : Nat) (files : List (Nat × List Chain)) (n : Chain) : List (Nat × List Chain) :=
+  match files.reverse with
+  | [] => [(recSize n, [n])]
+  | (used, cs) :: older =>
+    if fileMax ≠ 0 ∧ used + recSize n > fileMax then files ++ [(recSize n, [n])]
+    else (older.reverse) ++ [(used + recSize n, cs ++ [n])]
 
 /-- One atomic database transaction. -/
 inductive Commit (A : UtxoAlg) where
@@ -60,6 +82,9 @@ inductive Commit (A : UtxoAlg) where
   /-- `connectBlock`: best state, height index, spend journal
       (+ utxo flush and marker when pruning forces one). -/
   | connect (n : Chain) (flush : Option A.U)
+  /-- `connectBlock` whose `PruneBlocks` deleted block files: the blocks in them and
+      their journal entries go; `flush` is the forced utxo flush of `flushNeededAfterPrune`. -/
+  | connectPrune (n : Chain) (pruned : List Chain) (flush : Option A.U)
   /-- `disconnectBlock`: best state := parent, height index, cache flush with the
       parent as marker, the disconnect view, journal removal. -/
   | disconnect (n : Chain) (u : A.U)
@@ -72,13 +97,21 @@ def genesisStatus : Status := { valid := true }
 
 def apply (img : Image A) : Commit A → Image A
   | .create => { img with created := true, stored := [] :: img.stored,
-                          rows := upsert img.rows [] genesisStatus, best := [] }
+                          rows := upsert img.rows [] genesisStatus, best := [],
+                          files := addToFiles img.fileMax img.files [] }
   | .nop => img
   | .setMarker m => { img with marker := some m }
-  | .storeBlock n => { img with stored := n :: img.stored }
+  | .storeBlock n => { img with stored := n :: img.stored,
+                                files := if n ∈ img.stored then img.files else addToFiles img.fileMax img.files n }
   | .indexRows rs => { img with rows := rs.foldl (fun r e => upsert r e.1 e.2) img.rows }
   | .connect n none => { img with best := n, journal := n :: img.journal }
   | .connect n (some u) => { img with best := n, journal := n :: img.journal, utxo := u, marker := some n }
+  | .connectPrune n ps none =>
+    { img with best := n, journal := (n :: img.journal).filter (· ∉ ps), stored := img.stored.filter (· ∉ ps),
+               files := img.files.filter (fun f => f.2.all (· ∉ ps)) }
+  | .connectPrune n ps (some u) =>
+    { img with best := n, journal := (n :: img.journal).filter (· ∉ ps), stored := img.stored.filter (· ∉ ps),
+               files := img.files.filter (fun f => f.2.all (· ∉ ps)), utxo := u, marker := some n }
   | .disconnect n u => { img with best := n.tail, journal := img.journal.filter (· ≠ n), utxo := u,
                                   marker := some n.tail }
   | .utxoFlush u m => { img with utxo := u, marker := some m }
@@ -89,7 +122,23 @@ def replay (img : Image A) (cs : List (Commit A)) : Image A := cs.foldl apply im
 away from the last flush point writes); otherwise the cache never fills up. -/
 structure Cfg where
   cacheAlways : Bool
+  /-- prune target in bytes (`Config.Prune`), none = pruning off. -/
+  prune : Option Nat := none
 deriving DecidableEq, Repr
+
+/-- `PruneBlocks`: the blocks in the files that go so that the estimated total
+(last file's size + `fileMax` per older file) drops to the target; the last file stays. -/
+def pruneList (target : Nat) (img : Image A) : List Chain :=
+  match img.files.reverse with
+  | [] => []
+  | (lastUsed, _) :: older =>
+    if older = [] then []
+    else
+      let total := lastUsed + img.fileMax * older.length
+      if total ≤ target then []
+      else
+        let k := min older.length ((total - target + img.fileMax - 1) / img.fileMax)
+        ((img.files.take k).map (·.2)).flatten
 
 /-- The running node: in-memory state, the durable image it writes to, and the
 log of commits it has made (oldest first). -/
@@ -131,8 +180,23 @@ def connectBlock (cfg : Cfg) (nd : Node A) (n : Chain) : Node A × Bool :=
   if n = [] ∨ n.tail ≠ nd.tip then (nd, false)
   else
     let nd := flushDirty nd
-    let nd := emit nd (.connect n none)
-    (flushIfNeeded cfg { nd with tip := n } n, true)
+    let ps := match cfg.prune with
+      | none => []
+      | some t => pruneList t nd.img
+    if ps = [] then
+      let nd := emit nd (.connect n none)
+      (flushIfNeeded cfg { nd with tip := n } n, true)
+    else
+      -- `flushNeededAfterPrune`
+      let needFlush := match nd.lastFlush with
+        | none => true
+        | some m => m ∉ keys nd.index ∨ ps.any (fun x => x ∈ keys nd.index ∧ m.length ≤ x.length)
+      if needFlush then
+        let nd := emit nd (.connectPrune n ps (some nd.utxo))
+        (flushIfNeeded cfg { nd with tip := n, lastFlush := some n } n, true)
+      else
+        let nd := emit nd (.connectPrune n ps none)
+        (flushIfNeeded cfg { nd with tip := n } n, true)
 
 /-- `disconnectBlock` of the current tip; fails when the parent block cannot
 be loaded from the database. -/
@@ -286,9 +350,9 @@ def initConsistent (cfg : Cfg) (nd : Node A) : Except Corrupt (Node A) :=
     else if m ∉ keys nd.index then .error .markerUnknown
     else
       let fork := forkOf nd.tip m
-      match replayBlocks cfg (blocksAbove nd.tip fork.length) fork nd with
-      | .error e => .error e
-      | .ok nd => .ok { nd with lastFlush := some nd.tip }
+      -- until a flush of the replay loop writes, the last flush point is the marker
+      -- (fix of F-C04-b; `flushNeededAfterPrune` relies on it)
+      replayBlocks cfg (blocksAbove nd.tip fork.length) fork { nd with lastFlush := some m }
 
 def markValid (nd : Node A) : List Chain → Node A
   | [] => nd
